@@ -99,6 +99,24 @@ def mc(st, cfg, expect_ok=True, workers=4, timeout=1500):
     return rec
 
 
+def mc_ban(st, cfg, expect_inv=None):
+    """Exhaustive run of AdmissionBan (lifetime of a ban: order of ban and re-dial, stop/start); expect_inv = the invariant
+    that TLC must find violated (model of the code as it is / of a mutation), None = no error expected."""
+    rc, out, dt = st.tlc("AdmissionBan", cfg, workers=2, timeout=600)
+    g, dist, depth = counts(out)
+    ok = rc == 0 and "Model checking completed. No error has been found" in out
+    m = re.search(r"Invariant (\S+) is violated", out)
+    rec = {"module": "AdmissionBan", "cfg": cfg, "generated": g, "distinct": dist, "depth": depth, "ok": ok, "wall_s": round(dt, 1)}
+    vlib.log("TLC MC AdmissionBan/%s: %d generated, %d distinct, %.1fs, ok=%s%s" % (cfg, g, dist, dt, ok, (" violated=" + m.group(1)) if m else ""))
+    if expect_inv is None and not ok:
+        raise vlib.MachineryError("TLC model checking of AdmissionBan/%s failed (design-level spec error):\n%s" % (cfg, out[-4000:]))
+    if expect_inv is not None:
+        rec["expected_counterexample"] = m.group(1) if m else None
+        if ok or not m or m.group(1) != expect_inv:
+            raise vlib.MachineryError("AdmissionBan/%s was expected to violate %s:\n%s" % (cfg, expect_inv, out[-3000:]))
+    return rec
+
+
 def gen(st, cfg, outpath, timeout=1500, simulate=0, depth=0):
     """TLC as generator: the '@@' + JSON strings printed by MC_AdmissionGen go to outpath (ndjson).
     simulate=N: N random behaviours of the specification (tlc -simulate) instead of the exhaustive enumeration."""
@@ -133,6 +151,12 @@ def sub_design(ctx, st):
     st.bg("mc_q", mc, st, "MC_Admission_q.cfg", True, 4)
     # the code's Pop (no look at the reloaded rules): TLC must find  Push ; Reload ; Pop
     st.bg("mc_q_asis", mc, st, "MC_Admission_q_asis.cfg", False, 2)
+    # lifetime of a ban: recorded before the peer is closed and kept across stop/start it holds for good; the code as it is
+    # (closePeer - which dials queued addresses - before the ban is recorded) and the mutation "stop() re-creates the ban list"
+    # each let TLC find a dial to a banned IP
+    st.bg("mc_ban", mc_ban, st, "MC_AdmissionBan.cfg")
+    st.bg("mc_ban_asis", mc_ban, st, "MC_AdmissionBan_asis.cfg", "NeverDialBanned")
+    st.bg("mc_ban_stopclears", mc_ban, st, "MC_AdmissionBan_stopclears.cfg", "NeverDialBanned")
 
 
 def sub_blocklist(ctx, st):
@@ -174,11 +198,15 @@ def sub_queue(ctx, st):
 def contact_plan(ctx):
     """Scenarios kind:out:inc:trk:variant (switches of the three Blocklist* config flags; variant = list shape / reload shape)."""
     base = ["static:1:1:1:0", "static:0:0:0:1", "static:1:0:0:2", "static:0:1:0:0", "static:0:0:1:1",
-            "dup:1:1:1:0", "reload:1:1:1:0", "reload:1:0:0:1", "banned:1:1:1:0", "banq:1:1:1:0", "yourip:1:1:1:0"]
+            "dup:1:1:1:0", "reload:1:1:1:0", "reload:1:0:0:1", "banned:1:1:1:0", "banq:1:1:1:0", "yourip:1:1:1:0",
+            # ban -> stop/start (variant 0), Verify on the running torrent (1), two restarts (2) -> the banned IP offered again by
+            # user, tracker, ut_pex and itself; bandup: the banned IP is queued under a second port while its peer holds the only dial slot
+            "banrs:1:1:1:0", "banrs:1:1:1:1", "bandup:1:1:1:0"]
     if ctx.quick():
         return base
     more = ["static:%d:%d:%d:%d" % (o, i, t, v) for o in (0, 1) for i in (0, 1) for t in (0, 1) for v in (0, 1, 2)]
-    more += ["dup:1:1:1:1", "dup:0:0:0:2", "reload:1:1:1:2", "reload:1:1:0:3", "banned:0:0:0:1", "banned:1:1:1:2", "banq:0:0:0:1", "banq:1:1:1:2", "yourip:0:0:0:1", "yourip:1:1:1:2"]
+    more += ["dup:1:1:1:1", "dup:0:0:0:2", "reload:1:1:1:2", "reload:1:1:0:3", "banned:0:0:0:1", "banned:1:1:1:2", "banq:0:0:0:1", "banq:1:1:1:2", "yourip:0:0:0:1", "yourip:1:1:1:2",
+             "banrs:0:0:0:2", "banrs:1:0:1:1", "banrs:0:1:0:0", "bandup:0:0:0:1", "bandup:1:1:1:2"]
     return base + more + base[5:]
 
 
@@ -229,6 +257,13 @@ def sub_contact(ctx, st):
                 for op in ("CDial", "CAccept", "CAnnounce", "CWebseed", "CBan"):
                     if '"op":"%s"' % op in line:
                         ctx.oblig("C18.contact." + op[1:].lower(), 1)
+            # situations: the banned address offered again after a restart of the torrent / queued under a second port
+            txt = "".join(sc)
+            if '"kind":"banrs"' in txt and '"op":"CBan"' in txt:
+                after = txt.split('"what":"start"', 1)[1] if '"what":"start"' in txt else ""
+                ctx.oblig("C18.contact.ban.offered_after_restart", sum(after.count(w) for w in ('"manual-offer"', '"tracker-offer"', '"pex-offer"')))
+            if '"kind":"bandup"' in txt and '"op":"CBan"' in txt:
+                ctx.oblig("C18.contact.ban.same_ip_queued", 1)
     st.add_trace("contact", "contact", out, 1.0)
 
 
@@ -633,6 +668,10 @@ def run(ctx):
             ctx.mc_runs.append(rec)
             ctx.cov["states"] += rec["distinct"]
             ctx.cov["transitions"] += rec["generated"]
+        if res.get("mc_ban_asis"):
+            ctx.extra["design_counterexample_ban_as_is"] = ("TLC: with closePeer (-> dialAddresses) before the ban is recorded, %s fails by "
+                                                            "Offer X:a (dialled) ; Offer X again (queued, no free slot) ; Corrupt X:a -> X dialled"
+                                                            % res["mc_ban_asis"].get("expected_counterexample"))
         ce = res.get("mc_q_asis")
         if ce:
             ctx.extra["design_counterexample_as_is"] = ("TLC: with the code's Pop (no look at the rules at pop time) invariant %s fails by "
